@@ -326,7 +326,10 @@ Proof.
   - intros s a l _. apply neutral_disciplined. apply NL_app; [apply compare_immediate_NL|]. constructor; [apply bcc_NL|constructor].
   - intros t i T. apply neutral_disciplined. apply load_immediate_NL; exact T.
   - intros t l T. apply neutral_disciplined. change TEMP with (X 2). destruct t as [[m| |]|q]; cbn [Tt a_load_label] in *; try tauto; nt.
-  - intros t i T. apply neutral_disciplined. change TEMP with (X 2). destruct t as [[m| |]|q]; cbn [Tt a_add_and_jump] in *; try tauto; nt.
+  - intros t i T. apply neutral_disciplined. change TEMP with (X 2).
+    assert (AO : forall m, NL (add_offset (X m) i)).
+    { intros m. unfold add_offset. destruct (add_imm_fits i); [nt|]. apply NL_app; [change TEMP2 with (X 3); apply imm_code_NL|nt]. }
+    destruct t as [[m| |]|q]; cbn [Tt a_add_and_jump] in *; try tauto; nt; apply AO.
   - intros o t a b T _ _. apply neutral_disciplined. apply arith_NL; exact T.
   - intros t s T S. apply neutral_disciplined. apply mov_NL; assumption.
   - intros nl t c T. apply print_disciplined; exact T.
